@@ -17,6 +17,7 @@ import (
 var keyReg = map[uintptr]uint64{}
 var keyPin []unsafe.Pointer
 var keySeq uint64
+var curMapType string
 
 func resetKeys() {
 	keyReg = map[uintptr]uint64{}
@@ -30,6 +31,10 @@ func regPtr(p uintptr, pin unsafe.Pointer, lazy bool) uint64 {
 	}
 	if lazy && S != nil {
 		S.LazyKeys++
+		if S.LazyWhere == nil {
+			S.LazyWhere = map[string]int{}
+		}
+		S.LazyWhere[curMapType]++
 	}
 	keySeq++
 	keyReg[p] = keySeq
@@ -114,6 +119,17 @@ func cmpValue(a, b reflect.Value, depth int) int {
 		if a.IsNil() || b.IsNil() {
 			return c3(a.IsNil() && !b.IsNil(), !a.IsNil() && b.IsNil())
 		}
+		if a.CanInterface() && b.CanInterface() {
+			// type descriptors are ordered by name, not by address
+			if ta, ok := a.Interface().(reflect.Type); ok {
+				if tb, ok := b.Interface().(reflect.Type); ok {
+					sa, sb := ta.PkgPath()+"|"+ta.String(), tb.PkgPath()+"|"+tb.String()
+					if sa != sb {
+						return c3(sa < sb, sa > sb)
+					}
+				}
+			}
+		}
 		return cmpValue(a.Elem(), b.Elem(), depth+1)
 	case reflect.Struct:
 		for i := 0; i < a.NumField(); i++ {
@@ -140,6 +156,7 @@ func MapKeys(m interface{}) []interface{} {
 	}
 	keys := v.MapKeys()
 	if len(keys) > 1 {
+		curMapType = v.Type().String()
 		sort.SliceStable(keys, func(i, j int) bool { return cmpValue(keys[i], keys[j], 0) < 0 })
 		if s := S; s != nil && !s.killed && s.opts.RotateMaps {
 			if off := s.St.Biased(len(keys), 700, "maporder"); off > 0 {
